@@ -92,12 +92,21 @@ func (h *History) Write(s string) (int, error) {
 		return h.Len(), err
 	}
 
-	f, err := os.OpenFile(h.filename, os.O_APPEND|os.O_CREATE|os.O_WRONLY, 0600)
+	f, err := os.OpenFile(h.filename, os.O_APPEND|os.O_CREATE|os.O_RDWR, 0600)
 	if err != nil {
 		return 0, err
 	}
 
-	_, err = f.Write(append(b, '\n'))
+	// if the previous write was cut short (crash) the file does not end with a new
+	// line: start a new one so this entry is not glued to the torn one and lost
+	out := append(b, '\n')
+	if st, serr := f.Stat(); serr == nil && st.Size() > 0 {
+		last := make([]byte, 1)
+		if _, rerr := f.ReadAt(last, st.Size()-1); rerr == nil && last[0] != '\n' {
+			out = append([]byte{'\n'}, out...)
+		}
+	}
+	_, err = f.Write(out)
 	f.Close()
 	return h.Len(), err
 }
